@@ -29,7 +29,27 @@ def gen_cases(ctx, n):
             f["mm"] = ctx.rng.uniform(15.9, 16.35)       # perigee around 220 km (simplified-drag boundary)
             f["ecc"] = ctx.rng.randint(1000, 30000)
         l1, l2 = tlegen.make(**f)
-        out.append((l1, l2, ctx.rng.choice([0.0, ctx.rng.uniform(-1440, 1440), ctx.rng.uniform(-86400, 86400)])))
+        ts = ctx.rng.choice([0.0, ctx.rng.uniform(-1440, 1440), ctx.rng.uniform(-86400, 86400)])
+        out.append((l1, l2, ts))
+        if i % 5 == 2:
+            # a re-issued / corrected element set: same catalogue number and epoch, ONE element changed, propagated next in
+            # the same process (the answer must follow the element that changed, not an earlier object for that satellite)
+            g = dict(f)
+            which = ctx.rng.choice(["bstar", "argp", "ma", "raan", "inc", "ecc", "mm"])
+            if which == "bstar":
+                g["bstar"] = (ctx.rng.randint(10000, 99999), -ctx.rng.randint(3, 4), ctx.rng.choice(" -"))
+            elif which in ("argp", "ma", "raan"):
+                g[which] = (float(f[which]) + ctx.rng.uniform(5, 300)) % 360.0
+            elif which == "inc":
+                g["inc"] = min(179.0, max(1.0, float(f["inc"]) + ctx.rng.choice([-0.5, 0.5, 7.0])))
+            elif which == "ecc":
+                g["ecc"] = max(1, int(f["ecc"]) // 2 + ctx.rng.randint(0, 200))
+            else:
+                g["mm"] = float(f["mm"]) - ctx.rng.uniform(0.001, 0.4)
+            try:
+                out.append(tlegen.make(**g) + (ts if ts else 360.0,))
+            except Exception:
+                pass
     return out
 
 
